@@ -341,6 +341,10 @@ func decodeKey(seq ansi.Sequence) Key {
 			key.Keycode = KeyRight
 		case 'D':
 			key.Keycode = KeyLeft
+		case 'E':
+			// the Begin key (keypad 5 without Num Lock) in application
+			// cursor key mode
+			key.Keycode = KeyKeyPadBegin
 		case 'F':
 			key.Keycode = KeyEnd
 		case 'H':
